@@ -602,6 +602,9 @@ func init() {
 				{K: "batch", DS: "A", Ents: []server.VEnt{{ID: "e1", C: pi("v2")}, {ID: "e2", C: pi("r1")}, {ID: "e1", C: pi("dv1")}}},
 				{K: "batch", DS: "A", Ents: []server.VEnt{{ID: "e2", C: pi("v1")}, {ID: "e3", C: pi("v1")}}},
 				{K: "run"}, {K: "runfail", N: 1}, {K: "runfail", N: 2}, {K: "runkill", N: 1}, {K: "restart"},
+				// one entity rewritten many times in a row: a long run of superseded change-log entries
+				{K: "batch", DS: "A", Ents: []server.VEnt{{ID: "e1", C: pi("v1")}, {ID: "e1", C: pi("v2")}, {ID: "e1", C: pi("v1")}, {ID: "e1", C: pi("v2")}, {ID: "e1", C: pi("v1")},
+					{ID: "e1", C: pi("v2")}, {ID: "e1", C: pi("v1")}, {ID: "e1", C: pi("v2")}, {ID: "e1", C: pi("v1")}, {ID: "e1", C: pi("s")}}},
 			}
 			if !r.Quick() {
 				alpha = append(alpha, server.VOp{K: "runfail", N: 3}, server.VOp{K: "runkill", N: 2})
